@@ -635,6 +635,7 @@ func init() {
 			"calls are made one at a time from a single task on a registered, idle connection (no server traffic, PingFreq=0), so the bytes between two quiescent points belong to one call",
 			"flood control is off (Config.Flood=true); the rate limiter only delays lines and is not exercised here",
 			"the number of lines a call writes is recorded, not judged",
+			"a call made while no connection exists may block, be dropped or be sent on the next connection (the statement does not say); only lines that reach a server are judged",
 		},
 		Jobs: c08Jobs,
 	})
